@@ -10,6 +10,7 @@ import sys
 sys.path.insert(0, os.path.join(os.path.dirname(os.path.abspath(__file__)), "..", "lib"))
 import vlib
 import wsched
+import slotmodel
 from progs import func_obj, multi_func_obj, graph_program
 
 START_STOP_A = """
@@ -85,7 +86,7 @@ def make_cfg(name, spec, base, wild=None):
                 expect_error=bool(spec.get("expect_error")))
 
 
-def make_oracle(cfg, baseline):
+def make_oracle(cfg, baseline, model=None):
     expect_error = cfg["expect_error"]
     base_rc, base_sha = baseline
 
@@ -138,9 +139,53 @@ def make_oracle(cfg, baseline):
             if handled.get(k, 0) < n:
                 v.append(("request-unhandled", f"request {k} sent {n}x handled "
                           f"{handled.get(k, 0)}x"))
+        # (8) the execution, projected on its observable events, is a behaviour of the TLA+ model
+        # (tla/SlotProtocol.tla) that TLC verified safe and live for this harness.
+        if model is not None:
+            obs = slotmodel.observations_from_events(x.events, model.n)
+            ok, k = model.accepts(obs)
+            if not ok:
+                where = (f"observation {k} of {len(obs)}: {obs[k]}" if k is not None and k < len(obs)
+                         else "the final state is not a terminal state of the model")
+                v.append(("not-a-model-behaviour", where))
         return v
 
     return oracle
+
+
+def cost_model_is_primary(model):
+    return model == "deviation"
+
+
+def check_tla_models(chk, names, base):
+    """TLC: safety (NoWorkLost, TypeOK) and liveness (termination, everything handled) of the
+    protocol model for each harness instance, over ALL interleavings (no bound). The Python
+    encoding used for trace conformance must have exactly TLC's number of reachable states."""
+    out = {}
+    d = os.path.join(base, "tla")
+    for name in names:
+        mod = slotmodel.write_module(name, d)
+        r = slotmodel.run_tlc(mod, d, dump=False, workers=8)
+        if not r["ok"]:
+            if "is violated" in r["out"] or "violated" in r["out"]:
+                chk.violation(f"{name}:tla-model-property-violated", r["out"][-1500:],
+                              {"harness": name, "module": mod})
+                continue
+            chk.machinery(f"TLC failed on {mod}: {r['out'][-600:]}")
+        seen, _terminal = slotmodel.Model(name).reachable()
+        if len(seen) != r["distinct"]:
+            chk.machinery(f"{name}: Python encoding of the model has {len(seen)} reachable states, "
+                          f"TLC found {r['distinct']}: the two encodings differ")
+        out[name] = {"tlc_distinct_states": r["distinct"], "tlc_states_generated": r["states"],
+                     "python_encoding_states": len(seen)}
+    if chk.thorough:
+        # Sensitivity: the seeded slip (decrement before push) must be caught by TLC.
+        mod = slotmodel.write_module("startstop", d, "counter-before-push")
+        r = slotmodel.run_tlc(mod, d, dump=False, workers=8)
+        if r["ok"] or "NoWorkLost" not in r["out"]:
+            chk.machinery("TLC did not flag the seeded counter-before-push slip in the model")
+        out["startstop/seeded-slip"] = "NoWorkLost violated, as it must be"
+    return out
 
 
 def main():
@@ -157,10 +202,14 @@ def main():
         plan = [(n, "deviation", 2, 60) for n in H]
         plan += [("pingpong", "preempt", 0, 60)]
     per = {}
+    conformance = {}
+    model_harnesses = (["pingpong"] if not chk.thorough
+                       else ["pingpong", "startstop", "fanin", "samesym"])
     conformed, n_conformance = set(), 0
     tot = dict(executions=0, states=0, transitions=0, deadlocks=0, horizon=0)
     samples = []
     with vlib.scratch("c39") as base:
+        tla = check_tla_models(chk, model_harnesses, base)
         for name, model, bound, time_cap in plan:
             cfg = make_cfg(name, H[name], base)
             b0 = wsched.run_execution(cfg, [], os.path.join(base, "b0"))
@@ -183,11 +232,16 @@ def main():
                         chk.machinery(f"harness {name}: server and subprocess executions of "
                                       f"schedule {prefix} differ")
                     n_conformance += 1
-            oracle = make_oracle(cfg, (b0.rc, b0.out_sha))
+            tla_model = None
+            if name in model_harnesses and cost_model_is_primary(model):
+                tla_model = slotmodel.Model(name)
+            oracle = make_oracle(cfg, (b0.rc, b0.out_sha), tla_model)
             st = wsched.explore(cfg, bound, model, oracle, time_cap=time_cap,
                                 base=os.path.join(base, "x_" + name))
             if st["machinery"]:
                 chk.machinery(f"harness {name}: {st['machinery']}")
+            if tla_model is not None:
+                conformance[name] = conformance.get(name, 0) + st["executions"]
             per[f"{name}/{model}/{bound}"] = {
                          "bound_completed": bound if not st["capped"] else None,
                          "capped": st["capped"], "executions": st["executions"],
@@ -220,6 +274,8 @@ def main():
         "traces_validated_against_impl": tot["executions"],
         "executions": tot["executions"], "deadlocks": tot["deadlocks"],
         "server_vs_subprocess_schedules_compared": n_conformance,
+        "tla_model": tla,
+        "executions_accepted_as_model_behaviours": conformance,
         "horizon_hits": tot["horizon"],
         "cost_models": "deviation: every non-default scheduling choice costs 1; preempt: only "
                        "switching away from a still-enabled task costs 1 (switches at task end "
@@ -229,7 +285,11 @@ def main():
         "explanation": "every execution is a run of the real wild binary under the in-process "
                        "controlled scheduler; states = distinct scheduler fingerprints",
     }
-    chk.assumptions = ["sequentially consistent interleavings only (Relaxed atomics are not "
+    chk.assumptions = ["TLA+ model: harness data (which item requests which) is generated from "
+                       "the same description as the linked objects; trace inclusion is checked "
+                       "on the observable abstraction (slot length, parked, inside, handled "
+                       "count per group)",
+                       "sequentially consistent interleavings only (Relaxed atomics are not "
                        "weakened)", "scheduling points at every shimmed sync operation of "
                        "layout.rs (Mutex, AtomicUsize, ArrayQueue, SegQueue) and task begin/end"]
     chk.finish()
